@@ -506,4 +506,92 @@ theorem ret_reg_publishes {p : List PCmd} {n : Nat} (s : St) (r : Reg) (v : Int)
   · simp [hr]
 
 
+/-! ## the shapes the builder model emits -/
+
+/-- labels chosen by `_build_cmds_loop` -/
+def loopLabels (m : Mem) : Lbl × Lbl := ((newLabel m 1).2, (newLabel (newLabel m 1).1 2).2)
+
+def loopCode (r : Reg) (start stop stp : Int) (le lx : Lbl) (body : List PCmd) : List PCmd :=
+  [.instr .set [.reg r, .lit start], .label le, .instr .beq [.reg r, .lit stop, .lab lx]]
+    ++ body ++ [.instr .add [.reg r, .reg r, .lit stp], .instr .jmp [.lab le], .label lx]
+
+theorem buildLoop_shape (m : Mem) (start stop stp : Int) (r : Reg) (body : List PCmd) (hb : body ≠ []) :
+    (buildLoop m start stop stp r body).2
+      = loopCode r start stop stp (loopLabels m).1 (loopLabels m).2 body := by
+  have : body.isEmpty = false := by cases body <;> simp_all
+  simp [buildLoop, this, loopCode, loopLabels]
+
+theorem idx_mid (pre code post : List PCmd) (k : Nat) (hk : k < code.length) :
+    (pre ++ code ++ post)[pre.length + k]? = code[k]? := by
+  rw [List.append_assoc, List.getElem?_append_right (by omega)]
+  simp [List.getElem?_append_left hk]
+
+theorem idx_tail (A body C : List PCmd) (j : Nat) :
+    (A ++ body ++ C)[A.length + body.length + j]? = C[j]? := by
+  rw [List.getElem?_append_right (by simp)]
+  try simp
+
+theorem loopAt_of_layout (pre post body : List PCmd) (r : Reg) (start stop stp : Int) (le lx : Lbl)
+    (hle : findLabel (pre ++ loopCode r start stop stp le lx body ++ post) le = some (pre.length + 1))
+    (hlx : findLabel (pre ++ loopCode r start stop stp le lx body ++ post) lx
+      = some (pre.length + 5 + body.length)) :
+    LoopAt (pre ++ loopCode r start stop stp le lx body ++ post) pre.length body.length r start stop stp le lx := by
+  have hlen : (loopCode r start stop stp le lx body).length = body.length + 6 := by
+    simp [loopCode]
+  have front : ∀ k, k < 3 → (loopCode r start stop stp le lx body)[k]?
+      = [PCmd.instr .set [.reg r, .lit start], .label le, .instr .beq [.reg r, .lit stop, .lab lx]][k]? := by
+    intro k hk
+    unfold loopCode
+    rw [List.append_assoc, List.getElem?_append_left (by simpa using hk)]
+  have back : ∀ j, (loopCode r start stop stp le lx body)[3 + body.length + j]?
+      = [PCmd.instr .add [.reg r, .reg r, .lit stp], .instr .jmp [.lab le], .label lx][j]? := by
+    intro j
+    unfold loopCode
+    exact idx_tail _ _ _ j
+  refine ⟨?_, ?_, ?_, ?_, ?_, ?_, hle, hlx⟩
+  · have := idx_mid pre _ post 0 (by omega : 0 < (loopCode r start stop stp le lx body).length)
+    rw [Nat.add_zero] at this; rw [this, front 0 (by omega)]; rfl
+  · rw [idx_mid pre _ post 1 (by omega), front 1 (by omega)]; rfl
+  · rw [idx_mid pre _ post 2 (by omega), front 2 (by omega)]; rfl
+  · have e : pre.length + 3 + body.length = pre.length + (3 + body.length + 0) := by omega
+    rw [e, idx_mid pre _ post _ (by omega), back 0]; rfl
+  · have e : pre.length + 4 + body.length = pre.length + (3 + body.length + 1) := by omega
+    rw [e, idx_mid pre _ post _ (by omega), back 1]; rfl
+  · have e : pre.length + 5 + body.length = pre.length + (3 + body.length + 2) := by omega
+    rw [e, idx_mid pre _ post _ (by omega), back 2]; rfl
+
+
+/-- the code of `_build_cmds_condition` when both operands need no load (literal / RegFuture) -/
+def ifCode (c : Cond) (oa ob : POp) (l : Lbl) (body : List PCmd) : List PCmd :=
+  [.instr (negBranch c) (branchOps c oa ob l)] ++ body ++ [.label l]
+
+theorem buildCondition_shape (m : Mem) (c : Cond) (a b : Val) (oa ob : POp) (body : List PCmd)
+    (hb : body ≠ [])
+    (ha : condOperand (newLabel m 0).1 a = .ok ((newLabel m 0).1, [], oa, none))
+    (hbv : condOperand (newLabel m 0).1 b = .ok ((newLabel m 0).1, [], ob, none)) :
+    buildCondition m c a b body = .ok ((newLabel m 0).1, ifCode c oa ob (newLabel m 0).2 body) := by
+  have : body.isEmpty = false := by cases body <;> simp_all
+  unfold buildCondition
+  rw [this]
+  simp only [Bool.false_eq_true, if_false]
+  unfold branchCmds
+  simp only
+  by_cases hu : c.unary = true
+  · simp [hu, ha, releaseOpt, ifCode, branchOps]
+  · simp [hu, ha, hbv, releaseOpt, ifCode, branchOps]
+
+theorem ifAt_of_layout (pre post body : List PCmd) (c : Cond) (oa ob : POp) (l : Lbl)
+    (hl : findLabel (pre ++ ifCode c oa ob l body ++ post) l = some (pre.length + 1 + body.length)) :
+    IfAt (pre ++ ifCode c oa ob l body ++ post) pre.length body.length c oa ob l := by
+  have hlen : (ifCode c oa ob l body).length = body.length + 2 := by simp [ifCode]
+  refine ⟨?_, ?_, hl⟩
+  · have := idx_mid pre (ifCode c oa ob l body) post 0 (by omega)
+    rw [Nat.add_zero] at this; rw [this]; simp [ifCode]
+  · have e : pre.length + 1 + body.length = pre.length + (1 + body.length + 0) := by omega
+    rw [e, idx_mid pre _ post _ (by omega)]
+    unfold ifCode
+    have := idx_tail [PCmd.instr (negBranch c) (branchOps c oa ob l)] body [PCmd.label l] 0
+    simpa using this
+
+
 end NQ.Sdk
